@@ -289,6 +289,13 @@ def _single_call_site(F, q):
     return cache.get(q, 0) == 1
 
 
+def _few_call_sites(F, q, n=2):
+    """at most n call sites in the whole program: a part shared by sibling entry points (visitInstance and
+    visitInstanceLine both hand their instance to checkArguments)"""
+    _single_call_site(F, q)
+    return 1 <= F.__dict__["_callsite_count"].get(q, 0) <= n
+
+
 def inline_stmt_calls(fn, F, depth=0):
     """A copy of function facts `fn` in which every *expression statement* that is a call of
          - a lambda object declared in the same function (`const auto check = [&](..) {..}; check(a, b);`), or
@@ -424,7 +431,9 @@ def inline_stmt_calls(fn, F, depth=0):
             # (`visitLocation` -> `checkInvariant(loc)`), not an interface of its own
             for t in F.fns(c["fn"]):
                 if t.get("body") is not None and t.get("file") == fn.get("file") and t["q"] != fn["q"] and \
-                        len(t["params"]) == len(c.get("args", [])) and not t.get("virtual") and _single_call_site(F, t["q"]):
+                        len(t["params"]) == len(c.get("args", [])) and not t.get("virtual") and \
+                        (_single_call_site(F, t["q"]) or (_few_call_sites(F, t["q"]) and
+                                                          not any(x.get("fn") in (t["q"], fn["q"]) for x in calls(t["body"])))):
                     return [p["name"] for p in t["params"]], t["body"]
         return None
 
